@@ -33,6 +33,7 @@ import (
 	"verifh/ev"
 	"verifh/kit"
 	"verifh/limrig"
+	"verifh/xa"
 	"verifh/xstate"
 )
 
@@ -549,6 +550,44 @@ func persisted(s *sysL) string {
 	return strings.Join(out, ";")
 }
 
+// ------------------------------------------------------------------ A: the mapping under concurrent callers
+// "The mapping depends only on the name and N": also when several request handlers compute it at the same time.
+// GetShardID is instrumented at statement granularity; two / three threads map different names concurrently, every
+// interleaving up to the preemption bound - each caller must get the shard a lone caller gets.
+
+func harnessMapping(c *ev.Check, names []string, n int, bound int) xa.Harness {
+	name := fmt.Sprintf("concurrent-mapping-%dx-N%d", len(names), n)
+	want := make([]int, len(names))
+	for i, nm := range names {
+		want[i] = limutil.GetShardID(nm, n)
+	}
+	body := func() interface{} {
+		got := make([]int, len(names))
+		for i := range names {
+			i := i
+			vsched.GoNamed(fmt.Sprintf("map-%d", i), func() { got[i] = limutil.GetShardID(names[i], n) })
+		}
+		vsched.Join()
+		return got
+	}
+	check := func(x *vsched.Exec) error {
+		got := x.Obs.([]int)
+		c.Outcome("mapping_race_outcomes", fmt.Sprint(name, got))
+		for i := range got {
+			if got[i] != want[i] {
+				return fmt.Errorf("mapping-depends-on-other-callers: GetShardID(%q, %d) returned %d while other names were being mapped concurrently; alone it returns %d", names[i], n, got[i], want[i])
+			}
+		}
+		return nil
+	}
+	return xa.Harness{Name: name, Bound: bound, Shards: 1, Horizon: 5000, Body: body, Check: check}
+}
+
+func harnessesMapping(c *ev.Check, b int) []xa.Harness {
+	// names chosen so that they fall into different shards (and the empty name, whose hash is the hasher's initial state)
+	return []xa.Harness{harnessMapping(c, []string{"up0", "up1"}, 2, b), harnessMapping(c, []string{"cluster-a", "", "cluster-b"}, 5, b), harnessMapping(c, []string{"a", "b"}, 3, b)}
+}
+
 func main() {
 	c := ev.Start("C13", "model_checking")
 	c.Assume = []string{
@@ -559,6 +598,7 @@ func main() {
 	specs := []xstate.Spec{specLeader("local"), specLeader("k8s"), specLeader("k8s-writeback"), specLeader("k8s-writeback-api-failures")}
 	if c.ReplayFile() != "" {
 		xstate.ReplayIfAsked(c, specs)
+		xa.ReplayIfAsked(c, harnessesMapping(c, 0))
 	}
 	all := names(c.Thorough())
 	probe := all[len(all)-c.Pick(300, 2000):]
@@ -578,6 +618,11 @@ func main() {
 		tasks = append(tasks, ev.Task{Name: fmt.Sprint("server-side", n), Run: func() { serverSide(c, n, probe[:c.Pick(120, 600)]) }})
 	}
 	tasks = append(tasks, knowledgeTasks(c)...)
+	for _, b := range []int{0, 1, 2, c.Pick(2, 3)} {
+		for _, h := range harnessesMapping(c, b) {
+			tasks = append(tasks, xa.Tasks(c, h)...)
+		}
+	}
 	tasks = append(tasks, xstate.Tasks(c, specLeader("local"), c.Pick(10, 14), 16)...)
 	tasks = append(tasks, xstate.Tasks(c, specLeader("k8s"), c.Pick(9, 12), 16)...)
 	tasks = append(tasks, xstate.Tasks(c, specLeader("k8s-writeback"), c.Pick(8, 11), 16)...)
